@@ -24,4 +24,43 @@ def run(src, tier, seed):
     satrules.let_rule(res, fx)
     satrules.elimination_rule(res, fx)
     satrules.minimisation_rule(res, fx)
+    polynomial_invariant_rule(fx, res)
     return res
+
+
+def polynomial_invariant_rule(fx, res):
+    """The arithmetic preprocessing reports a conflict (the frame becomes `false`, check-sat answers unsat) when a top-level equality has reduced to a constant-only
+    polynomial; that the constant is non-zero is only asserted.  It holds because a polynomial never keeps a term with coefficient zero - an invariant that
+    PolynomialT's own methods (merge, removeVar, ...) maintain.  Writing a coefficient from outside bypasses it: 0 = 0 then counts as a false equality."""
+    from facts import fwalk, walk, see_through
+    from prims import as_assign
+    from build import AnalysisBroken
+    r = res.rule('polynomial-coefficients-owned', 'the coefficient of a polynomial term is written only by PolynomialT\'s own methods (which drop terms that cancel); the conflict test of '
+                 'collectConstantSubstitutions (a constant-only polynomial is a false equality) relies on no zero term being kept', floor=1)
+    cc = [f for f in fx.F.values() if f['name'].endswith('::collectConstantSubstitutions') and f.get('body')]
+    if len(cc) != 1:
+        raise AnalysisBroken('collectConstantSubstitutions not found (%d)' % len(cc))
+    relies = any(n.get('as') and 'isZero' in str(n) and 'coeff' in str(n) for n in fwalk(cc[0])) and any(x.get('k') == 'ret' and 'conflict' in str(x) for x in fwalk(cc[0]))
+    if not relies:
+        raise AnalysisBroken('collectConstantSubstitutions: the asserted non-zero constant / conflict return was not found (anchor)')
+    res.ok(r, 'collectConstantSubstitutions returns a conflict for a constant-only polynomial and only asserts that the constant is non-zero')
+    bad = []
+    for f in sorted(fx.F.values(), key=lambda f: f['name']):
+        if not f.get('body') or (f.get('class') or '').startswith('opensmt::PolynomialT'):
+            continue
+        for n in fwalk(f):
+            a = as_assign(n) if n.get('k') in ('bin', 'call') else None
+            t = a[0] if a else (n.get('e') if n.get('k') == 'un' and n.get('op') in ('++', '--') else None)
+            if t is None and n.get('k') == 'call' and n.get('op') in ('=', '+=', '-=', '*=', '/=') and n.get('recv') is not None:
+                t = n['recv']              # compound assignment of a class type (FastRational::operator+=)
+            e = t
+            while isinstance(e, dict) and e.get('k') == 'cast':
+                e = e['e']
+            if isinstance(e, dict) and e.get('k') == 'mem' and e.get('n') == 'coeff' and 'PolynomialT' in (e.get('of') or ''):
+                bad.append((f, n.get('ln')))
+    for f, ln in bad:
+        res.bad(r, 'coefficient-written-outside-polynomial:%s' % f['name'].split('::')[-1], fx.loc(f, ln), '%s writes the coefficient of a polynomial term in place: a term whose coefficient becomes '
+                'zero stays in the polynomial, and the preprocessing takes the constant-only polynomial 0 = 0 for a false equality - a satisfiable assertion set is answered unsat'
+                % f['name'].replace('opensmt::', ''))
+    if not bad:
+        res.ok(r, 'no function outside PolynomialT writes a term coefficient')
